@@ -524,13 +524,15 @@ def run(tier):
                     break
                 for n in walk(x):
                     if n.get("k") == "call" and n.get("fn") == "incrTwoByte" and len(n.get("a", [])) == 3 \
-                            and field_of(n["a"][1]) == EPOCH and not is_zero(n["a"][2]):
-                        ok = True
+                            and field_of(n["a"][1]) == EPOCH and (strip(n["a"][2]) or {}).get("k") == "int" \
+                            and strip(n["a"][2])["v"] != 0:
+                        ok = True          # `sending` is a non-zero constant: the epoch always restarts from largestEpoch + 1
         f_ = None
         if not ok:
             f_ = Finding(PROP, "C17.R2", fn.name, "rsn zeroed without a fresh epoch",
-                         "%s zeroes the DTLS record sequence number at line %s without incrTwoByte(ssl, ssl->epoch, sending) "
-                         "immediately before it: (epoch, rsn) restarts under the same epoch" % (fn.name, ln), file=fn.relfile, line=ln)
+                         "%s zeroes the DTLS record sequence number at line %s without incrTwoByte(ssl, ssl->epoch, <non-zero constant>) "
+                         "immediately before it: when the epoch is not taken from largestEpoch + 1 (sending == 0 on some path, e.g. a "
+                         "retransmission) the pair (epoch, rsn = 0) restarts under an epoch that was already used with the same key" % (fn.name, ln), file=fn.relfile, line=ln)
         res.instance("C17.R2", "%s: rsn zeroing at line %s directly follows the sending-epoch bump" % (fn.name, ln), ok, finding=f_)
     # the sending epoch is bumped from the high-water mark
     from sa.bufsrc import BufSrc
